@@ -912,14 +912,29 @@ static void minkCase(vh::Ctx& c) {
     if (side(b, q, tau) == 1) bs.push_back(q);
     else c.count("samples_skipped_in_band_or_outside");
   }
+  // extreme samples: just inside the vertices (pulled 2% towards a point of the solid), kept only if the oracle
+  // classifies them inside and deeper than tau -- their sums lie next to the boundary of the Minkowski sum
+  auto nearVertices = [&](const Shape& sh, std::vector<V3>& out, size_t maxN) {
+    V3 cen{0, 0, 0};
+    for (auto& v : sh.s.v) cen = cen + v * (1.0L / sh.s.v.size());
+    for (size_t i = 0; i < sh.s.v.size() && i < maxN; i++) {
+      V3 v = sh.s.v[(i * 7) % sh.s.v.size()];
+      for (V3 target : {cen, V3{0, 0, 0}}) {
+        V3 q = v + (target - v) * 0.02L;
+        if (side(sh, q, tau) == 1) { out.push_back(q); break; }
+      }
+    }
+  };
+  nearVertices(b, bs, 10);
   if (!isDiff) {
     // (S1) a in A deeper than tau, b in B deeper than tau  =>  a+b inside Sum (unless within tau of its surface)
     std::vector<V3> as;
-    for (int i = 0; i < 200 && as.size() < 24; i++) {
+    for (int i = 0; i < 200 && as.size() < 16; i++) {
       V3 q = randIn(r, a.s.lo, a.s.hi);
       if (side(a, q, tau) == 1) as.push_back(q);
       else c.count("samples_skipped_in_band_or_outside");
     }
+    nearVertices(a, as, 12);
     for (auto& pa : as)
       for (auto& pb : bs) {
         V3 x = pa + pb;
